@@ -275,6 +275,10 @@ def run(ctx: Context) -> None:
     ctx.rule(c16.r2_surrogate)
     # the grid itself stays inside the declared bounds up to the documented 1e-7 end-point tolerance (which C03 takes as given)
     ctx.rule(grid_within_bounds)
+    # the vector that is recorded is the vector that was proposed: between sample() and the history the batch is handed to the user's model, which
+    # must receive a private copy (alias analysis shared with C02-R7, restricted to the proposed batch)
+    from . import c02
+    ctx.rule(c02.r7_lent_arrays, ("batch.params",))
 
 
 def r1_grid(ctx: Context, base: ClassInfo) -> None:
